@@ -118,6 +118,73 @@ def _b_two_consoles(s):
     return {"f": f, "c": c, "c2": c2, "table": t, "got": {}}
 
 
+class _Boom(Exception):
+    pass
+
+
+class _RaisesOnce:
+    """live renderable whose k-th render raises (k counted over the whole execution)"""
+
+    def __init__(self, k):
+        self.calls = 0
+        self.k = k
+
+    def __rich_console__(self, console, options):
+        self.calls += 1
+        if self.calls == self.k:
+            raise _Boom("render %d" % self.k)
+        from rich.text import Text
+        yield Text("F1")
+
+
+def _b_live_faulty(s):
+    from rich.live import Live
+    f = sched.RecFile()
+    c = _console(f)
+    live = Live(_RaisesOnce(2), console=c, auto_refresh=False, redirect_stdout=False, redirect_stderr=False)
+    live.start()
+    live.refresh()          # render call 1 succeeds; the next render (by whichever thread) raises once
+    return {"f": f, "c": c, "live": live, "got": {}}
+
+
+class _FlushFailsOnce(sched.RecFile):
+    """the first flush() after arming raises OSError (the write before it has reached the file)"""
+
+    def __init__(self):
+        super().__init__()
+        self.armed = False
+
+    def flush(self):
+        super().flush()
+        if self.armed:
+            self.armed = False
+            raise OSError("flush failed once")
+
+
+def _b_flush_fault(s):
+    f = _FlushFailsOnce()
+    c = _console(f, record=True)
+    f.armed = True
+    return {"f": f, "c": c, "got": {}}
+
+
+def _catching(name, exc):
+    def op(e):
+        try:
+            OPS[name](e)
+        except exc:
+            e["got"].setdefault("caught", []).append(name)
+    return op
+
+
+def _capture_named(tag, text):
+    def op(e):
+        with e["c"].capture() as cap:
+            e["c"].print(text)
+        e["got"][tag] = cap.get()
+    return op
+
+
 def _b_live_not_started(s):
     from rich.live import Live
     f = sched.RecFile()
@@ -154,6 +221,8 @@ OPS = {
     "upd_tall": lambda e: e["live"].update("G1\nG2\nG3", refresh=True),
     "stop": lambda e: e["live"].stop(),
     "pstop": lambda e: e["p"].stop(),
+    "captureA": _capture_named("capA", "AAAA aaaa"),
+    "captureB": _capture_named("capB", "BBBB"),
     "print_table_c1": lambda e: e["c"].print(e["table"]),
     "print_table_c2": lambda e: e["c2"].print(e["table"]),
     "start_refresh": lambda e: (e["live"].start(), e["live"].refresh()),
@@ -162,8 +231,14 @@ OPS = {
     "adv_refresh": _adv,
     "add_task": lambda e: e["p"].add_task("t2", total=5),
 }
+OPS["printP_catch"] = _catching("printP", _Boom)
+OPS["printQ_catch"] = _catching("printQ", _Boom)
+OPS["printA_c"] = _catching("printA", OSError)
+OPS["printB_c"] = _catching("printB", OSError)
+OPS["printP_c"] = _catching("printP", OSError)
 # the text each print-like op must deliver exactly once (as it appears in the file)
-MARKS = {"printA": ["AAAA aaaa"], "printB": ["BBBB", "bbbb"], "printP": ["PPPP"], "printQ": ["QQQQ"], "logA": ["AAAA"]}
+MARKS = {"printA": ["AAAA aaaa"], "printB": ["BBBB", "bbbb"], "printP": ["PPPP"], "printQ": ["QQQQ"], "logA": ["AAAA"],
+         "printA_c": ["AAAA aaaa"], "printB_c": ["BBBB", "bbbb"], "printP_c": ["PPPP"]}
 
 HARNESSES = {
     # id: build, threads, kind, Event.wait timeout budget
@@ -190,6 +265,12 @@ HARNESSES = {
     "H15": (_b_live_not_started, {"A": ["start_refresh"], "B": ["start_refresh"]}, "live", 0),
     # one renderable object rendered by two threads for two different widths (rendering must not keep per-render
     # state on the renderable): needs scheduling points between the steps of Console.render -> "line" granularity
+    # a live renderable that raises once while some thread renders it: the exception goes to that thread, nobody may hang
+    "H18": (_b_live_faulty, {"A": ["printP_catch"], "B": ["printQ_catch"]}, "fault-live", 0),
+    # two captures at the same time: each returns its own text
+    "H19": (_b_plain(False), {"A": ["captureA"], "B": ["captureB"]}, "capture2", 0),
+    # the first flush of the run raises once (the caller catches it): nothing may be written twice afterwards
+    "H20": (_b_flush_fault, {"A": ["printA_c", "printP_c"], "B": ["printB_c"]}, "plain", 0),
     # four threads on one recording console (the statement's upper thread count), lock-level interleavings
     "H17": (_b_plain(True), {"A": ["printA"], "B": ["printB"], "X": ["printP"], "Y": ["printQ"]}, "plain", 0),
     "H16": (_b_two_consoles, {"A": ["print_table_c1"], "B": ["print_table_c2"]}, "plain", 0),
@@ -324,6 +405,19 @@ def _judge(hid, s, obs):
     if n_writes not in {len([1 for w, _ in so["writes"] if w is not None]) for so in seq} and tb == 0:      # a refresh thread whose timed wait fires adds writes of its own
         v.append(("%s/write-count-differs-from-any-sequential-run" % hid,
                   "%d writes %r; sequential runs have %r" % (n_writes, writes, sorted({len([1 for w, _ in so["writes"] if w is not None]) for so in seq}))))
+    if kind == "capture2":
+        for tag, text in (("capA", "AAAA aaaa"), ("capB", "BBBB")):
+            got = obs["got"].get(tag)
+            want = seq[0]["got"].get(tag)
+            if got != want:
+                v.append(("%s/capture-content" % hid, "%s captured %r expected %r" % (tag, got, want)))
+        if file_text:
+            v.append(("%s/captured-text-reached-file" % hid, repr(file_text)))
+    if kind == "fault-live":
+        # exactly one thread sees the injected exception; both prints that did not raise are on the screen; no hang
+        caught = obs["got"].get("caught", [])
+        if len(caught) != 1:
+            v.append(("%s/exception-count" % hid, "the fault was raised once, caught %r" % (caught,)))
     # (3) capture isolation
     if kind == "capture":
         want = seq[0]["got"].get("cap")
@@ -342,7 +436,7 @@ def _judge(hid, s, obs):
                 v.append(("%s/export-not-a-prefix-of-file-order" % hid, "export %r writes %r" % (mid, writes)))
     # (5) plain consoles: the file is one of the sequential files
     sym = "ok"
-    if kind in ("plain", "capture"):
+    if kind in ("plain", "capture", "capture2"):
         if file_text not in {"".join(t for _, t in so["writes"]) for so in seq}:
             sym = "file-not-sequential"
             v.append(("%s/file-differs-from-every-sequential-order" % hid, repr(file_text)))
@@ -447,7 +541,7 @@ def describe(tier, seed, res):
     return {
         "rule": "per harness (H1 print||print+record, H2 print||capture, H3 log||print||export, H4/H5g/H5s live print||update "
                 "same/taller/shorter, H6 live auto-refresh thread, H7/H7x progress advance+refresh||print(||add_task), H8a/H8b "
-                "print||stop(/start/refresh), H9 live print||print, H10 transient print||stop, H11/H12 refresh||update shorter/taller, H13 update||update, H14 progress auto-refresh thread print;stop, H15 start||start, H17 four printing threads on a recording console, H16 one Table object printed by two threads on two consoles of different width) every schedule with <= bound preemptions at the stated granularity "
+                "print||stop(/start/refresh), H9 live print||print, H10 transient print||stop, H11/H12 refresh||update shorter/taller, H13 update||update, H14 progress auto-refresh thread print;stop, H15 start||start, H18 live renderable raising once (caught), H19 capture||capture, H20 first flush raises once (caught) then more prints, H17 four printing threads on a recording console, H16 one Table object printed by two threads on two consoles of different width) every schedule with <= bound preemptions at the stated granularity "
                 "(coarse = lock/event/thread/write operations; shared = + every line of the whitelisted modules except "
                 "per-call-only console functions, bytecodes in the locked read-modify-write functions; line = every line). "
                 "An execution is one complete schedule; non-trivial = at least two threads wrote to the file or a violation; "
